@@ -138,8 +138,10 @@ Definition stride_flatten (g : geom) (start count stride : list Z) : list Z * Z 
   let sl := last start 0 in let cl := last count 0 in let tl_ := last stride 1 in
   let nstride := if tl_ =? 1 then 1 else cl in
   let seg_elems := if tl_ =? 1 then cl else 1 in
-  let d0 := map (fun k => (sl + k * tl_) * g_xsz g) (zrange 0 nstride) in
   let units := dim_units (g_isrec g) (g_recsize g) (g_xsz g) (g_shape g) 0 in
+  (* unit of the lowest dimension: xsz, except for a 1-D record variable where the lowest
+     dimension IS the record dimension (unit = recsize) *)
+  let d0 := map (fun k => (sl + k * tl_) * last units (g_xsz g)) (zrange 0 nstride) in
   let outer := zip (zip (removelast start) (removelast count)) (zip (removelast stride) (removelast units)) in
   (flatten_outer (rev (map (fun p => quad (fst p) (snd p)) outer)) d0, seg_elems).
 
